@@ -974,7 +974,7 @@ package weshnet
 //@ func (*MessageStore).addToDeviceCache
 //@   for C08
 //@   safety
-//@   requires m != nil && gcacheOK(device) && unlocked(addr(m.muDeviceCaches))
+//@   requires msOK(m) && gcacheOK(device) && unlocked(addr(m.muDeviceCaches))
 //@   modifies lockstate(addr(m.muDeviceCaches)), hbag(device.queue), hsize(device.queue), device.queue.items, lockstate(addr(device.queue.muMessages)), keySeen(m), parkedU(m), padds
 //@   ghostset keySeen(m) := device.hasKnownChainKey
 //@   ghostset parkedU(m) := ite(device.hasKnownChainKey, old(parkedU(m)), old(parkedU(m)) + 1)
@@ -983,7 +983,7 @@ package weshnet
 //@   ensures [C08.park.queued] result ==> hsize(device.queue) == old(hsize(device.queue)) + 1 && hbag(device.queue) == store(old(hbag(device.queue)), message, old(hbag(device.queue))[message] + 1) && padds == old(padds) + 1
 //@   ensures [C08.park.untouched] !result ==> hsize(device.queue) == old(hsize(device.queue)) && hbag(device.queue) == old(hbag(device.queue)) && padds == old(padds)
 //@   ensures [C08.park.seen] keySeen(m) == device.hasKnownChainKey && parkedU(m) == old(parkedU(m)) + ite(result, 1, 0)
-//@   ensures [C08.park.unlock] unlocked(addr(m.muDeviceCaches)) && gcacheOK(device)
+//@   ensures [C08.park.unlock] unlocked(addr(m.muDeviceCaches)) && gcacheOK(device) && msOK(m)
 
 //@ # droppedU(m): messages dropped because the sender key in their headers is not a valid key
 //@ ghost droppedU(Ref) Int
@@ -1022,24 +1022,24 @@ package weshnet
 //@ func (*MessageStore).processDeviceMessagesInQueue
 //@   for C08
 //@   safety
-//@   requires m != nil && gcacheOK(device)
+//@   requires msOK(m) && gcacheOK(device) && unlocked(addr(m.messagesQueue.mu))
 //@   modifies hbag(device.queue), hsize(device.queue), device.queue.items, lockstate(addr(device.queue.muMessages)), ptrace, pcalls, pcberrs
 //@   modifies lseq(m.messagesQueue.list), llen(m.messagesQueue.list), lockstate(addr(m.messagesQueue.mu)), sends(m.messagesQueue.signal)
 //@   ensures [C08.release.all] hsize(device.queue) == 0 || pcberrs > old(pcberrs)
-//@   ensures [C08.release.unlock] gcacheOK(device)
+//@   ensures [C08.release.unlock] gcacheOK(device) && msOK(m) && unlocked(addr(m.messagesQueue.mu))
 
 //@ # registration: under the lock, the flag follows the secret store and, once the key is known, the whole device queue is released
 //@ alias RD = m.deviceCaches[bytes(devicePK)]
 //@ func (*MessageStore).ProcessMessageQueueForDevicePK
 //@   for C08
 //@   safety
-//@   requires msOK(m) && unlocked(addr(m.muDeviceCaches))
+//@   requires msOK(m) && unlocked(addr(m.muDeviceCaches)) && unlocked(addr(m.messagesQueue.mu))
 //@   modifies lockstate(addr(m.muDeviceCaches)), $RD.hasKnownChainKey
 //@   modifies hbag($RD.queue), hsize($RD.queue), $RD.queue.items, lockstate(addr($RD.queue.muMessages)), ptrace, pcalls, pcberrs
 //@   modifies lseq(m.messagesQueue.list), llen(m.messagesQueue.list), lockstate(addr(m.messagesQueue.mu)), sends(m.messagesQueue.signal)
 //@   ensures [C08.register.flag] old(has(m.deviceCaches, bytes(devicePK))) && len(devicePK) == 32 ==> $RD.hasKnownChainKey == ckknown(m.secretStore)[bytes(devicePK)]
 //@   ensures [C08.register.release-all] old(has(m.deviceCaches, bytes(devicePK))) && len(devicePK) == 32 && ckknown(m.secretStore)[bytes(devicePK)] ==> hsize($RD.queue) == 0 || pcberrs > old(pcberrs)
-//@   ensures [C08.register.unlock] unlocked(addr(m.muDeviceCaches)) && msOK(m)
+//@   ensures [C08.register.unlock] unlocked(addr(m.muDeviceCaches)) && msOK(m) && unlocked(addr(m.messagesQueue.mu))
 
 //@ # one processing attempt: pmok(m)/pmfail(m) count the successes and failures; a success carries the headers of the
 //@ # item and the plaintext the secret store opened (lastOpened(s): the message last opened by secret store s)
@@ -1069,3 +1069,46 @@ package weshnet
 //@   ensures [C08.process.event] ret1 == nil ==> ret0 != nil && fresh(ret0) && ret0.Headers == message.headers
 //@        && ret0.Message == as(lastOpened(m.secretStore), "*berty.tech/weshnet/v2/pkg/protocoltypes.EncryptedMessage").Plaintext
 //@   ensures [C08.process.error] ret1 != nil ==> ret0 == nil
+
+//@ # the message loop: every item taken from the processing queue is dropped only for an invalid sender key, else parked
+//@ # (key unknown, under the lock) or attempted; a failed attempt puts the item back, a success releases the device queue and
+//@ # emits exactly one event. emitted(e)/lastEmit(e): count and last value of the events sent on emitter e
+//@ ghost emitted(Ref) Int
+//@ ghost lastEmit(Ref) Ref
+//@ extern (github.com/libp2p/go-libp2p/core/event.Emitter).Emit(e, evt) (err)
+//@   modifies emitted(e), lastEmit(e)
+//@   ensures emitted(e) == old(emitted(e)) + 1 && lastEmit(e) == evt
+//@ pred loopOK(m) = msOK(m) && unlocked(addr(m.muDeviceCaches)) && unlocked(addr(m.messagesQueue.mu)) && m.group != nil
+//@      && m.emitters.groupMessage != nil && m.emitters.groupCacheMessage != nil && m.emitters.groupMessage != m.emitters.groupCacheMessage
+//@ func (*MessageStore).processMessageLoop
+//@   for C08
+//@   safety
+//@   requires loopOK(m) && ctx != nil && tracer != nil
+//@   modifies lockstate(addr(m.muDeviceCaches)), mapof(m.deviceCaches), keySeen(m), droppedU(m), parkedU(m), padds, pmok(m), pmfail(m), lastOpened(m.secretStore)
+//@   modifies lseq(m.messagesQueue.list), llen(m.messagesQueue.list), lremoved(m.messagesQueue.list), lremcount(m.messagesQueue.list), lockstate(addr(m.messagesQueue.mu)), sends(m.messagesQueue.signal), cancelled(ctx)
+//@   modifies every(hbag), every(hsize), every("berty.tech/weshnet/v2.priorityMessageQueue.items"), every(lockstate), every(lockgen), ptrace, pcalls, pcberrs
+//@   # ASSUMED: the items of the processing queue are well formed (they are built by addToMessageQueue, checked there: C08.queue.item-wellformed)
+//@   at (*MessageStore).getOrCreateDeviceCache assumes message != nil && message.headers != nil && message.op != nil
+//@   modifies emitted(m.emitters.groupMessage), lastEmit(m.emitters.groupMessage), emitted(m.emitters.groupCacheMessage), lastEmit(m.emitters.groupCacheMessage)
+//@   at (*PriorityQueue[T]).Add requires [C08.park.direct-only-when-known] keySeen(caller_m)
+//@   ensures [C08.loop.accounting] lremcount(m.messagesQueue.list) - old(lremcount(m.messagesQueue.list))
+//@          == droppedU(m) - old(droppedU(m)) + parkedU(m) - old(parkedU(m)) + pmok(m) - old(pmok(m)) + pmfail(m) - old(pmfail(m))
+//@   ensures [C08.loop.put-back] padds - old(padds) == parkedU(m) - old(parkedU(m)) + pmfail(m) - old(pmfail(m))
+//@   ensures [C08.loop.emit-once] emitted(m.emitters.groupMessage) - old(emitted(m.emitters.groupMessage)) == pmok(m) - old(pmok(m))
+//@   loop 0 invariant loopOK(m) && ctx != nil && tracer != nil
+//@   loop 0 invariant lremcount(m.messagesQueue.list) - old(lremcount(m.messagesQueue.list))
+//@          == droppedU(m) - old(droppedU(m)) + parkedU(m) - old(parkedU(m)) + pmok(m) - old(pmok(m)) + pmfail(m) - old(pmfail(m))
+//@   loop 0 invariant padds - old(padds) == parkedU(m) - old(parkedU(m)) + pmfail(m) - old(pmfail(m))
+//@   loop 0 invariant emitted(m.emitters.groupMessage) - old(emitted(m.emitters.groupMessage)) == pmok(m) - old(pmok(m))
+
+//@ # producers of the processing queue hand over well-formed items (the assumption made in processMessageLoop)
+//@ extern (berty.tech/weshnet/v2/pkg/secretstore.SecretStore).OpenEnvelopeHeaders(s, data, g) (env, headers, err)
+//@   ensures err == nil ==> env != nil && headers != nil
+//@ func (*MessageStore).addToMessageQueue
+//@   for C08
+//@   safety
+//@   requires m != nil && m.secretStore != nil && m.messagesQueue != nil && m.messagesQueue.list != nil && m.messagesQueue.metrics != nil && unlocked(addr(m.messagesQueue.mu))
+//@   modifies lseq(m.messagesQueue.list), llen(m.messagesQueue.list), lockstate(addr(m.messagesQueue.mu)), sends(m.messagesQueue.signal)
+//@   at (*SimpleQueue[T]).Add requires [C08.queue.item-wellformed] m != nil && as(m, "*berty.tech/weshnet/v2.messageItem").headers != nil && as(m, "*berty.tech/weshnet/v2.messageItem").op != nil && as(m, "*berty.tech/weshnet/v2.messageItem").env != nil
+//@   ensures [C08.queue.added] result == nil ==> llen(m.messagesQueue.list) == old(llen(m.messagesQueue.list)) + 1 && sends(m.messagesQueue.signal) == old(sends(m.messagesQueue.signal)) + 1
+//@   ensures [C08.queue.refused] result != nil ==> llen(m.messagesQueue.list) == old(llen(m.messagesQueue.list))
